@@ -15,8 +15,11 @@
 in a Gaussian and non-Gaussian circuit."""
 
 import networkx as nx
+import numpy as np
 
 import strawberryfields.program_utils as pu
+from strawberryfields import ops
+from strawberryfields.program_utils import Command
 
 from .compiler import Compiler
 from .gaussian_unitary import GaussianUnitary
@@ -185,6 +188,14 @@ class GaussianMerge(Compiler):
                     # Fix order of operations
                     unified_operations = self.organize_merge_ops([op] + merged_gaussian_ops)
                     gaussian_transform = GaussianUnitary().compile(unified_operations, registers)
+                    if not gaussian_transform:
+                        # the merged operations cancel each other: keep an explicit identity transformation
+                        qumodes = set()
+                        for merged_op in unified_operations:
+                            qumodes.update(get_qumodes_operated_upon(merged_op))
+                        identity_reg = [r for r in registers if r.ind in qumodes]
+                        identity = ops.GaussianTransform(np.identity(2 * len(identity_reg)))
+                        gaussian_transform = [Command(identity, identity_reg)]
                     self.new_DAG.add_node(gaussian_transform[0])
 
                     # Logic to add displacement gates. Returns a dictionary,
